@@ -113,6 +113,9 @@ func checkMissingWhereConditions(db *gorm.DB) {
 			if _, withSoftDelete := db.Statement.Clauses["soft_delete_enabled"]; withSoftDelete {
 				whereClause, _ := where.Expression.(clause.Where)
 				withCondition = len(whereClause.Exprs) > 1
+			} else if whereClause, ok := where.Expression.(clause.Where); ok || where.Expression == nil {
+				// a WHERE entry without any expression (Clauses(clause.Where{})) is not a condition
+				withCondition = len(whereClause.Exprs) > 0
 			}
 		}
 		if !withCondition {
